@@ -32,7 +32,7 @@ RULE = (
     'Part every_statement enumerates EVERY statement index of every step of a '
     'dataset as fault point and as kill point (exhaustive per dataset); part '
     'sigkill delivers a real SIGKILL in a child process at a chosen '
-    'statement. Oracle (model = set of completed steps with arguments): after '
+    'statement; part fine_grid does the every-statement enumeration for a set-zeta-grid that stores 100,001-250,000 levels. Oracle (model = set of completed steps with arguments): after '
     'every operation the logical dump of the file equals the dump of a '
     'reference file built by running exactly the completed steps once each '
     'in canonical order on a fresh copy of the loaded dataset (a failed, '
@@ -67,6 +67,9 @@ def step_argv(case, step, arg, db):
         # off every generated grid: the step must fail by itself
         return [step, db, '--reference-zeta-mm=0.37']
     if step == 'set-zeta-grid':
+        if case.get('fine_grid') and arg % len(GRIDS) != 3:
+            # (part fine_grid) hundreds of thousands of levels
+            return ['set-zeta-grid', db, '-d', case['fine_grid']]
         return ['set-zeta-grid', db, '-d', GRIDS[arg % len(GRIDS)]]
     if step == 'set-curvature':
         return ['set-curvature', db, CURVATURES[arg % len(CURVATURES)]]
@@ -335,6 +338,9 @@ def check_every_statement(case):
     labels.add('points>={}'.format(min(points // 50, 20) * 50))
     if points >= 50 and labels & {'kill-left-hot-journal'}:
         labels.add('nontrivial')
+    if case.get('fine_grid') and labels & {
+            'fault-after-first-write', 'kill-after-first-write'}:
+        labels.update({'nontrivial', 'levels>100000'})
     return labels
 
 
@@ -347,6 +353,20 @@ def statement_cases(draw):
         ['set-zeta-grid', 'classify', 'rise', 'set-curvature', 'recession'],
     ]))
     record['sequence'] = list(seq)
+    return record
+
+
+@st.composite
+def fine_grid_cases(draw):
+    """A very fine (but legal) water-level grid: 100,001 - 250,000 levels
+    stored by one set-zeta-grid, every statement of which is a fault and a
+    kill point."""
+    record = draw(datasets())
+    levels = [v for _, v in record['wl']]
+    span = max(levels) - min(levels) or 1.0
+    target = draw(st.sampled_from([100001, 120000, 200001, 250000]))
+    record['fine_grid'] = repr(span / target)
+    record['sequence'] = ['set-zeta-grid']
     return record
 
 
@@ -423,6 +443,12 @@ PARTS = [
          exhaustive={'quick': False, 'thorough': False},
          describe='every statement of every step as fault and kill point '
                   '(exhaustive per dataset)'),
+    Part('fine_grid', check_every_statement,
+         strategy=lambda tier: fine_grid_cases(),
+         budget={'quick': 1, 'thorough': 2},
+         shards={'quick': 3, 'thorough': 16},
+         describe='set-zeta-grid storing 100,001-250,000 levels: every '
+                  'statement as fault and kill point'),
     Part('sigkill', check_sigkill, strategy=lambda tier: sigkill_cases(),
          budget={'quick': 3, 'thorough': 12},
          shards={'quick': 4, 'thorough': 16},
